@@ -35,8 +35,9 @@ VARIANTS = {
     # fast, no sanitizer (bulk enumeration where ASan is run on a sub-grid)
     'qf':  ('gcc',   BASE + ['-O2'] + ALLOC_RENAMES + PTHREAD_RENAMES),
     # Engine S: guard ON, threads/mutexes routed to the baton scheduler
-    's':   ('gcc',   BASE + ['-O1', '-DSLU_MT_VERIF'] + ASAN + ALLOC_RENAMES + PTHREAD_RENAMES),
-    'sf':  ('gcc',   BASE + ['-O2', '-DSLU_MT_VERIF'] + ALLOC_RENAMES + PTHREAD_RENAMES),
+    # exit() of the library's abort path is routed to the engine too: an execution that ends in the documented abort is an outcome, not a crash
+    's':   ('gcc',   BASE + ['-O1', '-DSLU_MT_VERIF', '-Dexit=vf_lib_exit'] + ASAN + ALLOC_RENAMES + PTHREAD_RENAMES),
+    'sf':  ('gcc',   BASE + ['-O2', '-DSLU_MT_VERIF', '-Dexit=vf_lib_exit'] + ALLOC_RENAMES + PTHREAD_RENAMES),
     # Engine S race build: clang TSan *instrumentation only*, linked against our own runtime
     'sr':  ('clang', BASE + ['-O1', '-DSLU_MT_VERIF', '-fsanitize=thread', '-mllvm', '-tsan-distinguish-volatile=1']
                      + ALLOC_RENAMES + PTHREAD_RENAMES),
